@@ -323,6 +323,16 @@ func (w *World) runTxn(p *TxnProg, h *TxnHist) {
 	txn.SetEnableAsyncCommit(p.Async)
 	txn.SetEnable1PC(p.OnePC)
 	txn.SetCausalConsistency(p.Causal)
+	switch p.CommitWait {
+	case "lag":
+		txn.SetCommitWaitUntilTSO(txn.StartTS() + uint64(3600*1000)<<18)
+		txn.SetCommitWaitUntilTSOTimeout(0)
+		w.Sim.Count("probe.commit-wait.lag")
+	case "near":
+		txn.SetCommitWaitUntilTSO(txn.StartTS() + uint64(5+p.ID%40)<<18)
+		txn.SetCommitWaitUntilTSOTimeout(2 * time.Second)
+		w.Sim.Count("probe.commit-wait.near")
+	}
 	if w.sc.Knobs.ScanBatch > 0 {
 		txn.GetSnapshot().SetScanBatchSize(w.sc.Knobs.ScanBatch)
 	}
@@ -1033,6 +1043,7 @@ func (w *World) runGC(plan *GCPlan) *GCReport {
 	w.Net.Topo = &simkit.InnerSplitTopo{Cl: w.Cl, Keys: w.allKeys, H: simkit.NewHasher(w.Sim.Seed, "gcsplit"), Always: true}
 	defer func() { w.Net.Topo = w.Cl }()
 	// 1. range task coverage with a recording handler
+	rangeCtx, cancelRange := context.WithCancel(ctx)
 	var mu sync.Mutex
 	calls := 0
 	handler := func(ctx context.Context, r kv.KeyRange) (rangetask.TaskStat, error) {
@@ -1043,15 +1054,21 @@ func (w *World) runGC(plan *GCPlan) *GCReport {
 		rep.Ranges = append(rep.Ranges, [2]string{string(r.StartKey), string(r.EndKey)})
 		if n == plan.FailAt {
 			rep.FailedAt = n
+			if plan.CancelInCall {
+				// the caller gives up while this sub-range is being handled
+				cancelRange()
+				return rangetask.TaskStat{FailedRegions: 1}, ctx.Err()
+			}
 			return rangetask.TaskStat{FailedRegions: 1}, fmt.Errorf("sim: injected handler failure")
 		}
 		return rangetask.TaskStat{CompletedRegions: 1}, nil
 	}
 	runner := rangetask.NewRangeTaskRunner("sim-cover", st, plan.Concurrency, handler)
 	runner.SetRegionsPerTask(plan.RegionsPer)
-	if err := runner.RunOnRange(ctx, []byte(plan.RangeLo), []byte(plan.RangeHi)); err != nil {
+	if err := runner.RunOnRange(rangeCtx, []byte(plan.RangeLo), []byte(plan.RangeHi)); err != nil {
 		rep.RangeErr = err.Error()
 	}
+	cancelRange()
 	// 2. GC lock resolution up to a fresh safe point
 	sp, err := st.GetOracle().GetTimestamp(ctx, &oracleOpt)
 	if err != nil {
